@@ -371,6 +371,34 @@ example :
         = some (.filled 1 (.filled 1 .zero))
     ∧ (hafresh d2 .svd .x).2 = some (.filled 2 .zero) := by decide
 
+/-- non-vacuity of `HAValid` with a `set(other data)` (round 4: `HAOp.Valid (.setData d)` = `d.Ok` was never shown
+    satisfiable): both data sets are admissible, the history is valid, and the final query is valid for the data held -/
+example :
+    let fi : Full.Input := { n := 3, nullity := 0, resolves := fun _ => true }
+    let e : EnvInput := { n := 3, nullity := 0, invp := fun i => i, inEnv := fun _ _ => true,
+                          resolves := fun _ => true, qbbIn := fun _ _ => true }
+    let d1 : AInput := { env := { e with id := 1 }, chol := fi, gso := fi, svd := fi, minx := none, rows := fun _ => [1, 2],
+                         id := 1, m := 4, n := 3 }
+    let d2 : AInput := { d1 with env := { e with id := 2 }, id := 2 }
+    let ops := [HAOp.q .x, .setData d2, .q (.setAlg .svd), .q (.qxx 1 3)]
+    d1.Ok ∧ d2.Ok ∧ HAValid d1 ops ∧ (AOp.qxx 3 1).Valid (harun (hainit d1 .gso) ops).inp.env.n := by
+  intro fi e d1 d2 ops
+  have ok : ∀ d : AInput, d.env.n = 3 → d.env.invp = (fun i => i) → d.env.nullity = 0 → d.rows = (fun _ => [1, 2]) →
+      d.chol = fi → d.gso = fi → d.svd = fi → d.minx = none → d.Ok := by
+    intro d hn hi h0 hr hc hg hs hm
+    refine ⟨fun i h _ => by rw [hi]; exact h, ?_, Or.inl h0, ?_, ?_, ?_⟩
+    · intro i c hc'
+      rw [hr] at hc'
+      simp at hc'
+      rw [hn]
+      rcases hc' with rfl | rfl <;> exact ⟨by decide, by decide⟩
+    · rw [hc, hm]; exact ⟨by decide, by decide, by decide, (by intro hk hu; first | exact Or.inl rfl | exact absurd hk (by decide) | exact absurd hu (by decide)), by decide⟩
+    · rw [hg, hm]; exact ⟨by decide, by decide, by decide, (by intro hk hu; first | exact Or.inl rfl | exact absurd hk (by decide) | exact absurd hu (by decide)), by decide⟩
+    · rw [hs, hm]; exact ⟨by decide, by decide, by decide⟩
+  have h1 : d1.Ok := ok d1 rfl rfl rfl rfl rfl rfl rfl rfl
+  have h2 : d2.Ok := ok d2 rfl rfl rfl rfl rfl rfl rfl rfl
+  exact ⟨h1, h2, ⟨trivial, h2, trivial, (show AOp.Valid 3 (.qxx 1 3) from by decide), trivial⟩, by decide⟩
+
 /-- what a leftover means numerically (exact arithmetic): the copy loop overwrites only the STORED elements,
     so a structural zero of the new rows keeps the old number (here 7 at position (1,2)) -/
 example :
